@@ -382,6 +382,14 @@ M("r20-cache-key-without-lookahead", ["C01", "C09"], "break",
    ("yaep.c", "  int lookahead1 = ((struct set_term_lookahead *) s1)->lookahead;\n  int lookahead2 = ((struct set_term_lookahead *) s2)->lookahead;\n", "")], "set_term_lookahead_eq/compares-key")
 M("r20-symbol-hash-uses-other-field", ["C10"], "break",
   [("yaep.c", "  assert (symb->term_p);\n  return symb->u.term.code;", "  assert (symb->term_p);\n  return symb->u.term.code + symb->num;")], "symb_code_hash/hashes-key-only")
+M("r21-make-parse-start-bound-swapped", ["C01", "C03", "C12"], "break",
+  [("yaep.c", "	  if (sit_ind < set_core->n_start_sits)\n#ifndef ABSOLUTE_DISTANCES\n	    sit_orig = pl_ind - set->dists[sit_ind];", "	  if (sit_ind < set_core->n_all_dists)\n#ifndef ABSOLUTE_DISTANCES\n	    sit_orig = pl_ind - set->dists[sit_ind];")],
+  "make_parse/dists")
+M("r21-build-new-set-off-by-one", ["C01", "C03", "C12"], "break",
+  [("yaep.c", "      else if (sit_ind < set_core->n_start_sits)\n	dist = set->dists[sit_ind];", "      else if (sit_ind <= set_core->n_start_sits)\n	dist = set->dists[sit_ind];")],
+  "build_new_set/dists")
+M("r21-negated-bound-benign", ["C01", "C03", "C12"], "benign",
+  [("yaep.c", "      if (sit_ind >= set_core->n_all_dists)\n#ifdef TRANSITIVE_TRANSITION", "      if (!(sit_ind < set_core->n_all_dists))\n#ifdef TRANSITIVE_TRANSITION")])
 
 # ---- R8 / R2f (C16, C19) ----------------------------------------------------------------------------
 M("r8-revert-F14", ["C19", "C16"], "break", [("hashtab.cpp", "		  entry_ptr = first_deleted_entry_ptr;\n		  *entry_ptr = EMPTY_ENTRY;", "		  entry_ptr = first_deleted_entry_ptr;\n		  *entry_ptr = DELETED_ENTRY;")], "find_hash_table_entry~")
